@@ -6,6 +6,8 @@ import (
 	"encoding/json"
 	"os"
 	"path/filepath"
+	"strconv"
+	"strings"
 )
 
 // regressionInputs: minimised past failures, run first (DESIGN.md §2.5 corpus).
@@ -24,6 +26,48 @@ func regressionInputs(pid string) [][]byte {
 	}
 	for _, s := range m["*"] {
 		out = append(out, []byte(s))
+	}
+	return append(hintSources(), out...)
+}
+
+// hintSources: when a correspondence run of this check found inputs on which model and code differ, the runner
+// hands them over (-hints): the oracle evaluates the property itself on exactly those inputs first, so that a
+// broken tie comes with a failing input whenever the mismatch is one.
+func hintSources() [][]byte {
+	if opts.Hints == "" {
+		return nil
+	}
+	b, err := os.ReadFile(opts.Hints)
+	if err != nil {
+		return nil
+	}
+	var hs []struct {
+		Cases []struct {
+			Op string `json:"op"`
+		} `json:"cases"`
+	}
+	if json.Unmarshal(b, &hs) != nil {
+		return nil
+	}
+	var out [][]byte
+	seen := map[string]bool{}
+	for _, h := range hs {
+		for _, c := range h.Cases {
+			i := strings.IndexByte(c.Op, '"')
+			if i < 0 {
+				continue
+			}
+			q, err := strconv.QuotedPrefix(c.Op[i:])
+			if err != nil {
+				continue
+			}
+			src, err := strconv.Unquote(q)
+			if err != nil || seen[src] {
+				continue
+			}
+			seen[src] = true
+			out = append(out, []byte(src))
+		}
 	}
 	return out
 }
